@@ -157,6 +157,8 @@ def render(prog):
                 sep = dict(sep, lines=[""])
             out.gap(sep)
     out.gap(prog.get("tail"))
+    # text after the last line break: blanks and/or a comment that runs to the end of the file, no terminator
+    out.emit(prog.get("eof") or "")
     if prog.get("_want_tokens"):
         return out.text(), lm, out
     return out.text(), lm
@@ -419,10 +421,14 @@ def programs(draw, value_strategy=None, max_commands=5, nl=None):
         while c["result"] in seen:
             c["result"] = c["result"] + "_%d" % i
         seen.add(c["result"])
-    return {
-        "nl": nl or draw(st.sampled_from(["\n", "\n", "\r\n"])),
+    prog = {
+        "nl": nl or draw(st.sampled_from(["\n", "\n", "\n", "\r\n", "\r\n", "\r"])),
         "head": draw(gaps(3)), "commands": cmds, "tail": draw(gaps(3)),
     }
+    eof = draw(st.sampled_from([None, None, None, "#", " # done", "#) = [", "  "]))
+    if eof:
+        prog["eof"] = eof
+    return prog
 
 
 def strip_layout(prog):
